@@ -9,6 +9,7 @@ import GocoinV.Proofs.C07Pos
 import GocoinV.Proofs.C07KMain
 import GocoinV.Proofs.C07Roll
 import GocoinV.Proofs.C07Torn
+import GocoinV.Proofs.C07Lib
 namespace GocoinV.Props.C07
 open GocoinV.Persist GocoinV.Proofs.C07
 
@@ -456,5 +457,74 @@ theorem dat_rollover_needs_the_update_after_the_bump :
     rreadsBack (rrun true 500 {} [.write 1 300, .write 2 300, .restart, .write 3 200]).d = false ∧
     rreadsBack (rrun false 500 {} [.write 1 300, .write 2 300, .restart, .write 3 200]).d = true := by
   decide
+
+/-! ## the start-up path (library mode, lock file) and the walking snapshot writer — tied to the source by REGENERATED FACTS
+
+`Gen/C07Facts.lean` is rewritten by go/cmd/gen_c07 from /repo on every run; the theorems below are stated about its definitions,
+so an edit of LockDatabaseDir's open call, of the guard in front of NewChainExt's ParseTillBlock, of the place where
+UndoBlockTxs / CommitBlockTxs abort a running snapshot, or of the order inside Chain.Idle changes what the kernel re-checks. -/
+
+open GocoinV.Gen.C07Facts in
+/-- the five structural facts read from the source are the ones the models were written for: the lock file is opened if it
+    exists (else created); NewChainExt re-applies blocks only when the farthest block is strictly HIGHER than the snapshot's;
+    UndoBlockTxs and CommitBlockTxs abort a running snapshot before their first change of the maps; Chain.Idle flushes the
+    block files before it starts a snapshot. -/
+theorem source_facts_are_the_modelled_ones :
+    lockOpenMode = .openOrCreate ∧ reapplyGuard = .higher ∧ undoAbortsSave = true ∧ commitAbortsSave = true ∧
+    idleFlushesFirst = true := by decide
+
+open GocoinV.Gen.C07Facts in
+/-- `clean_restart_identity` for LIBRARY mode (NewChainExt without DoNotRescan, the mode of every user of the package but the
+    client), EVERY history: after Close, NewChainExt with the guard AS WRITTEN IN THE SOURCE opens the directory without a panic
+    at exactly the running node's tip and unspent set, and its last step re-applies nothing — in WHATEVER order Go's map
+    iteration lists the block tree (`withTree`: any listing of nodes of the loaded tree), i.e. whichever of several equally
+    high leaves FindFarthestNode returns.  Same hypotheses as `clean_restart_identity`. -/
+theorem library_clean_restart_identity (bigs : List Coin) (ops : List Op) (hwf : WF (submitted (ops ++ [.close])))
+    (hrun : (run bigs (ops ++ [.close])).foreign = false) :
+    ∃ s1, libraryOpen reapplyGuard (run bigs (ops ++ [.close])).d bigs = .ok s1 ∧
+      s1.n.tip = (run bigs (ops ++ [.close])).n.tip ∧ s1.n.utxo = (run bigs (ops ++ [.close])).n.utxo ∧
+      ∀ tree, (∀ t ∈ tree, t ∈ s1.n.tree) → libraryTail reapplyGuard (withTree s1 tree) = withTree s1 tree := by
+  obtain ⟨s1, ho, e1, e2, he, hmax⟩ := clean_restart_maxH bigs ops hwf hrun
+  have hg : reapplyGuard = .higher := by decide
+  refine ⟨s1, ?_, e1, e2, ?_⟩
+  · have hn : libraryTail .higher s1 = s1 := libraryTail_higher_noop s1 hmax
+    unfold libraryOpen
+    simp only [ho, hg, hn, he]
+  · intro tree hsub
+    rw [hg]
+    exact libraryTail_higher_noop (withTree s1 tree) (fun t ht => hmax t (hsub t ht))
+
+example : WF (submitted ([.submit b1, .submit bA, .idle, .submit bB1, .idle] ++ [.close])) ∧
+    (run [] ([.submit b1, .submit bA, .idle, .submit bB1, .idle] ++ [.close])).foreign = false := by
+  refine ⟨⟨by decide +kernel, by decide +kernel, by decide +kernel, by decide +kernel, by decide +kernel⟩, by decide +kernel⟩
+
+/-- … and it is the STRICT comparison that does it: on the closed directory of `siblingOps` (block 1; A with a snapshot; B1, a
+    sibling of A, stored aside) a guard "the farthest block differs from the current one" is harmless as long as the tree is
+    listed in index order, and panics "end block is not higher then current" (FindPathTo) as soon as the sibling is met first;
+    the guard as written leaves the node alone in both orders. -/
+theorem library_reopen_needs_the_strict_guard : siblingShows = true := by decide +kernel
+
+open GocoinV.Gen.C07Facts in
+/-- the lock file never stands in the way of a restart: with LockDatabaseDir's open call AS WRITTEN IN THE SOURCE, after ANY
+    sequence of starts, kills and clean shutdowns (one instance at a time) no start has been refused. -/
+theorem lock_never_blocks_restart (es : List LEvent) : (lockRun lockOpenMode es).refused = false :=
+  lockRun_never_refused lockOpenMode (by decide) es
+
+/-- … whereas an exclusive create (what the Windows variant does AFTER removing the file) refuses the first start after a kill -/
+theorem lock_excl_blocks_restart_after_a_kill : (lockRun .createExcl [.start, .crash, .start]).refused = true := by decide
+
+open GocoinV.Gen.C07Facts in
+/-- the snapshot file is a state the node held — for the writer as it really works (it WALKS the maps; whatever is changed in a
+    map it has not reached yet ends up in the file): with the abort calls where the source has them (regenerated facts), after
+    ANY sequence of save start / walk one map / finish / CommitBlockTxs / UndoBlockTxs, UTXO.db holds the header's block, exactly
+    the walk of that block's set, and the header's record count. -/
+theorem lazy_snapshot_is_start_state (nmaps : Nat) (ops : List LOp) :
+    fileHeld nmaps (lrun nmaps undoAbortsSave commitAbortsSave ops) = true :=
+  (lrun_inv nmaps ops).file
+
+/-- … and it needs the abort in UndoBlockTxs: if an undo leaves the running snapshot alone (the abort done by MoveToBlock only),
+    the history "snapshot of block 2 starts, walks map 0; block 2 is undone; the writer finishes" renames a file to UTXO.db whose
+    header names block 2 and announces 2 records but which holds the one record of block 1's set. -/
+theorem lazy_snapshot_needs_the_abort_in_undo : fileHeld 256 (lrun 256 false true lazyWitness) = false := by decide +kernel
 
 end GocoinV.Props.C07
